@@ -318,7 +318,7 @@ fn ra_dec(b: &Big) -> String {
 pub fn run(ctx: &Ctx, out: &mut Outcome) {
     let tier = ctx.tier;
     let max = tier.pick(8, 24);
-    let n_pairs = tier.pick(40_000, 600_000);
+    let n_pairs = tier.pick(40_000, 250_000);
     search::<Case5>(ctx, out, "pairs", n_pairs, &move || pair_strategy(max), &move |c, st| check(c, st, tier));
     // a band of short operands: dense coverage of 1-3 limb patterns
     search::<Case5>(ctx, out, "pairs-short", tier.pick(40_000, 400_000), &|| pair_strategy(3), &move |c, st| check(c, st, tier));
